@@ -278,9 +278,11 @@ type vCtl struct {
 	nchan        int
 	npre, ns     int
 	wActive      bool
+	wOff         bool // the active writing session includes OFF files
 	wPaused      bool
 	wDir         string
 	hasProj      map[int]bool
+	sureProj     map[int]bool // channels that certainly have a model loaded
 	comment      string
 	commentBad   bool // comment.txt has been made uncreatable
 	mapLoaded    bool
@@ -485,6 +487,7 @@ func (k *vCtl) startSource() bool {
 	}
 	k.active = true
 	k.hasProj = map[int]bool{}
+	k.sureProj = map[int]bool{}
 	return true
 }
 
@@ -571,6 +574,17 @@ func (k *vCtl) reqTriggers() {
 			want = "err"
 		} else {
 			want = "any" // validity of the remaining parameter combinations is not fixed by the statement
+			if fts.EdgeMultiMakeShortRecords && k.gate() == "" {
+				// variable-length records on a channel that has a model loaded cannot be analysed (the server would crash on the
+				// first short record): such a request has to be answered with an error
+				for _, ch := range idx {
+					if k.sureProj[ch] {
+						want = "err"
+						k.c.Cov("variable_length_requests_on_channels_with_model", 1)
+						break
+					}
+				}
+			}
 		}
 		k.c.Cov("edge_multi_requests", 1)
 		var okay bool
@@ -616,6 +630,9 @@ func (k *vCtl) reqPulseLengths() {
 		if g == "err" && p.ns > 0 && p.npre > 0 && !(p.ns == k.ns && p.npre == k.npre) {
 			want = "err"
 		}
+	}
+	if !(p.ns == k.ns && p.npre == k.npre) {
+		k.sureProj = map[int]bool{} // whatever the outcome, models may have been dropped on some channels
 	}
 	var okay bool
 	err, ret := k.do(fmt.Sprintf("ConfigurePulseLengths(nsamp=%d,npre=%d)", p.ns, p.npre), want, func() error { return k.sc.ConfigurePulseLengths(SizeObject{Nsamp: p.ns, Npre: p.npre}, &okay) })
@@ -667,6 +684,9 @@ func (k *vCtl) reqProjectors() {
 	case 8:
 		bb64, want = "AAAA", "err"
 	}
+	if k.wActive && k.wOff && want == "ok" {
+		want = "any" // a channel whose OFF file is open refuses a new model; which channels have one depends on what was loaded at START
+	}
 	w := want
 	if (k.lenUnknown || k.emtOn) && want == "ok" {
 		want, w = "any", "any" // shapes unknown, or refused because the channel makes variable-length records
@@ -680,6 +700,9 @@ func (k *vCtl) reqProjectors() {
 	})
 	if ret && err == nil && (w == "ok" || (w == "any" && want != "err")) && ch >= 0 && ch < k.nchan {
 		k.hasProj[ch] = true
+		if w == "ok" {
+			k.sureProj[ch] = true // (no doubt about shapes, edge-multi or the source: the channel has a model now)
+		}
 	}
 }
 
@@ -779,6 +802,7 @@ func (k *vCtl) reqWriteControl() {
 		k.comment = ""
 	case strings.HasPrefix(up, "START"):
 		k.wActive, k.wPaused = true, false
+		k.wOff = of
 		ws := k.sc.ActiveSource.ComputeWritingState()
 		k.wDir = filepath.Dir(ws.FilenamePattern)
 		k.comment = ""
@@ -1179,6 +1203,7 @@ func vRunControl(c *vCase) {
 		k.nchan = 4
 		k.ns, k.npre = 32, 8
 		k.hasProj = map[int]bool{}
+		k.sureProj = map[int]bool{}
 		for i := 0; i < 1+r.Intn(3) && !k.dead; i++ {
 			switch r.Intn(6) {
 			case 0:
